@@ -22,6 +22,8 @@ structure SysvInv (nb base nchain : Nat) (pre : List UInt32) (st : SysvState) : 
     st.last[b]? = some (some (base + i)) ∧ st.chains[base + i]? = some 0
   incr : ∀ a c, st.chains[a]? = some c → c = 0 ∨ a < c
   fresh : ∀ a c, st.chains[a]? = some c → c ≠ 0 → a < base + pre.length
+  bndB : ∀ (b v : Nat), st.buckets[b]? = some v → v < nchain
+  bndC : ∀ (a c : Nat), st.chains[a]? = some c → c < nchain
 
 theorem getElem_snoc_lt {α} (pre : List α) (h : α) (i : Nat) (hi : i < pre.length) :
     (pre ++ [h])[i]'(by simp; omega) = pre[i] := List.getElem_append_left hi
@@ -55,7 +57,7 @@ theorem sysvStep_inv (nb base nchain : Nat) (hb : 1 ≤ base) (hnb : 0 < nb) (pr
       simp [sysvStep, hv]
     rw [hst]
     have hnone := inv.empty _ hv
-    refine ⟨by simp [inv.lenB], inv.lenC, by simp [inv.lenL], ?_, ?_, ?_, inv.incr, ?_⟩
+    refine ⟨by simp [inv.lenB], inv.lenC, by simp [inv.lenL], ?_, ?_, ?_, inv.incr, ?_, ?_, inv.bndC⟩
     · intro i hi
       rcases hidx i hi with hlt | heq
       · obtain ⟨s, hs0, hs1, hs2⟩ := inv.reach i hlt
@@ -89,6 +91,13 @@ theorem sysvStep_inv (nb base nchain : Nat) (hb : 1 ≤ base) (hnb : 0 < nb) (pr
     · intro a c hac hc0
       have := inv.fresh a c hac hc0
       simp; omega
+    · intro b w hbw
+      by_cases hbe : h.toNat % nb = b
+      · subst hbe
+        rw [List.getElem?_set_self hbl] at hbw
+        have := Option.some.inj hbw; omega
+      · rw [List.getElem?_set_ne hbe] at hbw
+        exact inv.bndB b w hbw
   · -- non-empty bucket: link after the last symbol of the bucket
     obtain ⟨i0, hi0, hb0, hl0, hc0⟩ := inv.lastOk _ v hv hv0
     have hlast : st.last.getD (h.toNat % nb) none = some (base + i0) := by
@@ -99,7 +108,7 @@ theorem sysvStep_inv (nb base nchain : Nat) (hb : 1 ≤ base) (hnb : 0 < nb) (pr
       simp [sysvStep, hv, hv0, hl0]
     rw [hst]
     have hlc : base + i0 < st.chains.length := (List.getElem?_eq_some_iff.mp hc0).1
-    refine ⟨inv.lenB, by simp [inv.lenC], by simp [inv.lenL], ?_, ?_, ?_, ?_, ?_⟩
+    refine ⟨inv.lenB, by simp [inv.lenC], by simp [inv.lenL], ?_, ?_, ?_, ?_, ?_, inv.bndB, ?_⟩
     · intro i hi
       rcases hidx i hi with hlt | heq
       · obtain ⟨s, hs0, hs1, hs2⟩ := inv.reach i hlt
@@ -145,5 +154,12 @@ theorem sysvStep_inv (nb base nchain : Nat) (hb : 1 ≤ base) (hnb : 0 < nb) (pr
       · rw [List.getElem?_set_ne hal] at hac
         have := inv.fresh a c hac hcn
         simp; omega
+    · intro a c hac
+      by_cases hal : base + i0 = a
+      · subst hal
+        rw [List.getElem?_set_self hlc] at hac
+        have := Option.some.inj hac; omega
+      · rw [List.getElem?_set_ne hal] at hac
+        exact inv.bndC a c hac
 
 end Wild.Hash
